@@ -16,5 +16,5 @@ def run(ctx):
                        {"panic", "exact", "mux"})
     import c04_smooth
     c04_smooth.run(ctx)
-    solids.judge_stage(ctx, "rectops", ["c04-rectops", "n=%d" % (80 if quick else 1500)], {"panic", "exact", "bounds"},
+    solids.judge_stage(ctx, "rectops", ["c04-rectops", "n=%d" % (80 if quick else 1500)], {"panic", "exact", "exact2", "bounds"},
                        judge="solids/RectOpsJudge", keyfn=lambda rec, clause: "toolbox3d.RectSet:history:%s" % clause)
